@@ -46,3 +46,7 @@ TABLE["C12"] = dict(engine="component", technique="property-based testing: Hypot
 TABLE["C06"] = dict(engine="component", technique="property-based testing: Hypothesis-generated record sequences, chunkings, receive modes and single-point ciphertext manipulations against a real transit Connection pair after a real handshake; prefix-up-to-first-manipulation oracle + dropped/pending-reads-fail oracle",
     text="Both ends are real transit.Connection objects owned by real TransitSender/TransitReceiver (real key derivation, real SecretBox), joined by byte pipes under tape-chosen chunking; the manipulating party works on the framed ciphertext without the key.",
     note=COMP_NOTE)
+
+TABLE["C05"] = dict(engine="component", technique="property-based testing: Hypothesis-generated hostile offer names, zip member names, --output-file/--accept-file configurations and pre-existing objects against the real Receiver offer path on the real filesystem; sandbox snapshot-diff oracle against a reference destination computed from the statement",
+    text="The real Receiver._parse_offer code path (destination decision, permission prompt, .tmp handling, zip extraction) runs with a fake wormhole and record pipe in a fresh sandbox base/outer/cwd full of decoys; a before/after snapshot (kind, content hash, mode) of the whole sandbox is compared with what the statement allows. One genuine defect is recorded as a known finding (a pre-existing <dest>.tmp is clobbered).",
+    note=COMP_NOTE + " Real filesystem under /verif/scratch (removed per case); the check runs as root.")
